@@ -15,7 +15,7 @@
 From Coq Require Import ZArith List String Permutation.
 From LV Require Import Base.Conc Base.Events Base.Lin Spec.Specs Model.MsPq
   Proofs.MsPqBrc Proofs.MsPqInv Proofs.MsPqProofs Proofs.MsPqHeap Proofs.MsPqSeq Proofs.MsPqPhase Proofs.MsPqBounds Proofs.MsPqPush.
-From LV Require Import Proofs.MsPqBrcGen Proofs.MsPqBrcAll Proofs.MsPqReal Proofs.MsPqPushLin Proofs.MsPqPop.
+From LV Require Import Proofs.MsPqBrcGen Proofs.MsPqBrcAll Proofs.MsPqReal Proofs.MsPqPushLin Proofs.MsPqPop Proofs.MsPqStack.
 Require LV.Model.FcKernel LV.Model.FcBatch LV.Proofs.FcBatchProofs LV.Proofs.FcKernelProofs LV.Proofs.FcContainers.
 Import ListNotations.
 Local Open Scope Z_scope.
@@ -105,8 +105,9 @@ Print Assumptions C11_mspq_phase_linearizable_partial.
     Available and is not larger than its parent -- holding exactly the successfully pushed items.  (The invariant
     behind it, at every instant: a cell tagged with a thread id is the one that thread is bubbling, and an Available
     cell is not larger than any of its ancestors.)  The pop-phase counterpart for the heap is
-    [C11_mspq_two_phase_heap] below; the order of concurrent pops and the composition into
-    [C11_mspq_phase_linearizable_statement] are not proved: see LV.Proofs.MsPqPhase. *)
+    [C11_mspq_two_phase_heap] below, and [C11_mspq_two_phase_linearizable] is the linearizability of a push phase
+    followed by a pop phase; histories with MORE than two phases ([C11_mspq_phase_linearizable_statement]) are not
+    proved: see LV.Proofs.MsPqPhase. *)
 Theorem C11_mspq_push_phase_heap :
   forall cap, slots_ok cap = true -> shape_ok cap = true ->
   forall bsz, (cap < bsz)%nat ->
@@ -142,13 +143,12 @@ Print Assumptions C11_mspq_push_phase_linearizable.
 
 (** a phase of concurrent pushes followed by a phase of concurrent pops, EVERY schedule: [twophase tr] says that no
     pop is invoked while a push is pending and no push is invoked after the first pop (nothing else is assumed: the
-    pops overlap each other arbitrarily).  Whenever no operation is pending the heap is a max-heap again -- the cells
-    in use are the first [count] slots, all tagged Available, every cell in use is not larger than its parent --
-    holding exactly the items pushed and not handed back.  Invariant of the pop phase (LV.Proofs.MsPqPop, [PopFacts]):
-    a node lock has one holder and only the holder changes the cell; the "frontier" cells are the pParent cells of the
-    pops inside heapify_after_pop, each locked by its pop; every cell in use is not larger than ANY of its ancestors
-    that is not a frontier cell, and all its ancestors are in use.  The order in which concurrent pops return the
-    items (linearizability of the pop phase) is not proved: see LV.Proofs.MsPqPhase. *)
+    pushes overlap each other arbitrarily, and so do the pops).  Whenever no operation is pending the heap is a
+    max-heap again -- the cells in use are the first [count] slots, all tagged Available, every cell in use is not
+    larger than its parent -- holding exactly the items pushed and not handed back.  Invariant of the pop phase
+    (LV.Proofs.MsPqPop, [PopFacts]): a node lock has one holder and only the holder changes the cell; the "frontier"
+    cells are the pParent cells of the pops inside heapify_after_pop, each locked by its pop; every cell in use is not
+    larger than ANY of its ancestors that is not a frontier cell, and all its ancestors are in use. *)
 Theorem C11_mspq_two_phase_heap :
   forall cap, slots_ok cap = true -> shape_ok cap = true ->
   forall bsz, (cap < bsz)%nat ->
@@ -159,6 +159,23 @@ Theorem C11_mspq_two_phase_heap :
     Permutation (heap_items cap (Conc.shared c) ++ given_back (Conc.trace c)) (invoked (Conc.trace c)).
 Proof. exact mspq_two_phase_heap. Qed.
 Print Assumptions C11_mspq_two_phase_heap.
+
+(** ... and these runs are linearizable to the bounded max-priority queue: the trace annotated with the linearization
+    points at the size-lock acquisitions (push: "g_inc" / "g_full", pop: "g_dec" / "g_emp") is a valid LP trace
+    ([Lin.lp_valid]), i.e. every push is answered as the specification answers at that instant and every pop returns
+    a maximum of the abstract multiset at the instant it takes m_Lock.  (LV.Proofs.MsPqPop [PL]: a linearized pop that
+    has not exchanged the top item yet owes the specification its result; it holds m_Lock or the top lock; when it
+    obtains the top lock the top cell is not a frontier cell, so it holds the maximum of the cells, which is the
+    value owed.  LV.Proofs.MsPqStack: the specification state after the push phase is a permutation of the heap.) *)
+Theorem C11_mspq_two_phase_linearizable :
+  forall cap, slots_ok cap = true -> shape_ok cap = true ->
+  forall bsz, (cap < bsz)%nat ->
+  forall (hf lf : nat) (ths : list (list MsPq.op)) c,
+    Conc.reach (MsPq.init_cfg cap bsz hf lf ths) c ->
+    twophase (Conc.trace c) = true ->
+    linearizable (BPQueue cap) (hist_of cap (Conc.trace c)).
+Proof. exact mspq_two_phase_linearizable. Qed.
+Print Assumptions C11_mspq_two_phase_linearizable.
 
 (** non-vacuity: two threads push three items each, then two other threads pop concurrently (five pops); the
     discipline holds, a pop has been invoked, everything has returned, one item is left *)
@@ -307,6 +324,13 @@ Theorem C11_mspq_two_phase_real :
     Permutation (heap_items (rcap k) (Conc.shared c) ++ given_back (Conc.trace c)) (invoked (Conc.trace c)).
 Proof. exact mspq_two_phase_real. Qed.
 Print Assumptions C11_mspq_two_phase_real.
+
+Theorem C11_mspq_two_phase_linearizable_real :
+  forall (k bsz hf lf : nat) (ths : list (list MsPq.op)) c,
+    (k <= 61)%nat -> (rcap k < bsz)%nat -> Conc.reach (MsPq.init_cfg (rcap k) bsz hf lf ths) c ->
+    twophase (Conc.trace c) = true -> linearizable (BPQueue (rcap k)) (hist_of (rcap k) (Conc.trace c)).
+Proof. exact mspq_two_phase_linearizable_real. Qed.
+Print Assumptions C11_mspq_two_phase_linearizable_real.
 
 (** ** FCPriorityQueue (model LV.Model.FcKernel + FcBatch, proofs LV.Proofs.FcContainers -- flat-combining work).
     For every schedule, any number of threads, compact factor and combine pass count: on traces without the
